@@ -4,15 +4,19 @@ metabook, batch size and EVERY schedule the final archive = the declarative `nee
 Tie: the real make_nuwiki/Fetcher/MwApi against a synthetic MediaWiki below MwApi (vt/harness/c11_*.py);
 the archive read back with nuwiki.Adapt is compared with the extracted model's final state and spec.
 Search: the property's own oracle (vt/harness/c11_oracle.py) on the archive."""
+import atexit
 import concurrent.futures
 import json
 import os
 import queue
 import random
+import re
+import shutil
 import subprocess
 import time
 
 from vt import core
+from vt.gen import c11_sapi
 from vt.harness import c11_oracle, c11_shrink, c11_wiki
 
 LEVEL = "proof"
@@ -20,13 +24,43 @@ NPROC = min(16, core.NPROC)
 
 
 # ----------------------------------------------------------------------------- real code
+_fast = []
+
+
+def fast_tmp():
+    """where the harness lets the real fetcher write its archives: tmpfs when the machine has one (every archive is
+    read back and deleted right after its case; the fetcher's sqlite commits are fsync-bound on a disk, which made
+    the wall time of the check a function of the other jobs on the machine), else the scratch directory"""
+    if not _fast:
+        base = os.environ.get("VERIF_C11_TMP", "/dev/shm")
+        d = core.scratch()
+        if os.path.isdir(base) and os.access(base, os.W_OK):
+            d = os.path.join(base, "verif-c11-%d" % os.getpid())
+            shutil.rmtree(d, ignore_errors=True)
+            os.makedirs(d)
+            atexit.register(shutil.rmtree, d, True)
+        _fast.append(d)
+    return _fast[0]
+
+
+def cost_of(case):
+    rv = max(1, int(case["opts"].get("rvlimit", 50)))
+    return 12.0 + sum(3 + len(p.get("users", [])) / rv for p in case["wiki"]["pages"])
+
+
 def run_real(cases, src, brief=True, timeout=3000):
     """Run the cases on the real code, sharded over processes.  Returns results in case order."""
     if not cases:
         return []
     nsh = max(1, min(NPROC, len(cases) // 4 or 1))
-    shards = [cases[i::nsh] for i in range(nsh)]
-    base = os.path.join(core.scratch(), "c11")
+    # shards of about equal COST (estimated number of requests: a few per page + the contributor slices), largest first
+    shards = [[] for _ in range(nsh)]
+    load = [0.0] * nsh
+    for c in sorted(cases, key=cost_of, reverse=True):
+        k = load.index(min(load))
+        shards[k].append(c)
+        load[k] += cost_of(c)
+    base = os.path.join(fast_tmp(), "c11")
 
     def one(k):
         inp = "".join(json.dumps(c) + "\n" for c in shards[k])
@@ -52,7 +86,7 @@ class Workers:
     def __init__(self, src, n):
         self.idle = queue.Queue()
         self.procs = []
-        base = os.path.join(core.scratch(), "c11w")
+        base = os.path.join(fast_tmp(), "c11w")
         for k in range(n):
             p = subprocess.Popen([core.PY, "-m", "vt.harness.c11_impl", os.path.join(base, "w%d" % k), "brief"], cwd=core.VERIF,
                                  env=core.impl_env(src), stdin=subprocess.PIPE, stdout=subprocess.PIPE,
@@ -272,6 +306,110 @@ def build():
     return core.ocaml_build("c11", "C11/Extract.v", "driver.ml")
 
 
+def generate(src):
+    """coq/C11/Gen_continue.v from sapi.py (vt/gen/c11_sapi.py, fail-closed)"""
+    return c11_sapi.generate(src)
+
+
+# ----------------------------------------------------------------------------- tie of the continuation model
+def gen_script(rng, cid):
+    """a scripted server: 1-5 queries of 1-7 slices over 4 keys, fresh continuation values (10%: the value just sent
+    is handed out again - the client must give that query up), and the order in which one client asks them"""
+    nq = rng.randint(1, 5)
+    script = []
+    nxt = [10]
+    for q in range(1, nq + 1):
+        slices = []
+        n = rng.choice([1, 1, 2, 3, 3, 4, 5, 7])
+        prev = None
+        for i in range(n):
+            d = []
+            for k in rng.sample([1, 2, 3, 4], rng.randint(0, 3)):
+                d.append([k, [rng.randint(0, 99) for _ in range(rng.randint(0, 3))]])
+            if i == n - 1:
+                c = None
+            elif prev is not None and rng.random() < 0.1:
+                c = prev
+            else:
+                nxt[0] += rng.randint(1, 3)
+                c = nxt[0]
+            slices.append([d, c])
+            prev = c
+        script.append([q, slices])
+    order = [rng.randint(1, nq + (1 if rng.random() < 0.2 else 0)) for _ in range(rng.randint(1, 14))]
+    return {"id": cid, "script": script, "order": order}
+
+
+def coq_list(xs):
+    return "[" + "; ".join(xs) + "]"
+
+
+def coq_data(d):
+    return coq_list("(%d, %s)" % (k, coq_list("%d" % v for v in vs)) for k, vs in d)
+
+
+def coq_opt(c):
+    return "None" if c is None else "(Some %d)" % c
+
+
+def continue_tie(run, src):
+    """the real MwApi._do_request on scripted servers = run_queries gen_stop (srv_of script) of ModelContinue.v"""
+    n = 150 if run.tier == "quick" else 450
+    cases = [gen_script(run.rng, i) for i in range(n)]
+    rc, out = core.run_impl("vt.harness.c11_continue", [], src=src, input="".join(json.dumps(c) + "\n" for c in cases), timeout=600)
+    res = {}
+    for ln in out.splitlines():
+        if ln.startswith("{"):
+            r = json.loads(ln)
+            res[r["id"]] = r
+    dis = []
+    if rc != 0 or len(res) != n:
+        dis.append("harness vt.harness.c11_continue failed: rc=%s, %d/%d results: %s" % (rc, len(res), n, out[-400:]))
+        return n, dis, {}
+    rel = "C11/cases_%d.v" % os.getpid()
+    lines = ["From Coq Require Import List NArith Bool.", "From MW Require Import C11.ModelContinue C11.Gen_continue.",
+             "Import ListNotations.", "Open Scope N_scope."]
+    todo = []
+    rounds = 0
+    stopped = 0
+    for c in cases:
+        r = res[c["id"]]
+        if "error" in r:
+            dis.append("script %s: real client raised: %s" % (c["id"], r["error"][:300]))
+            continue
+        rounds = max(rounds, r["qccount"])
+        stopped += 1 if any(sl[i][1] is not None and sl[i][1] == sl[i - 1][1] for _q, sl in c["script"] for i in range(1, len(sl))) else 0
+        sc = coq_list("(%d, %s)" % (q, coq_list("(%s, %s)" % (coq_data(d), coq_opt(k)) for d, k in sl)) for q, sl in c["script"])
+        exp = "(%d, %s)" % (r["qccount"], coq_list("Some %s" % coq_data(a) for a in r["answers"]))
+        lines.append("Eval vm_compute in (result_eqb (run_queries gen_stop (srv_of %s) 60 0 %s) %s)."
+                     % (sc, coq_list("%d" % q for q in c["order"]), exp))
+        todo.append(c)
+    path = os.path.join(core.COQ, rel)
+    try:
+        with open(path, "w") as f:
+            f.write("\n".join(lines) + "\n")
+        ok, cout = core.coqc_file(rel)
+    finally:
+        for ext in (".v", ".vo", ".vok", ".vos", ".glob"):
+            try:
+                os.unlink(path[:-2] + ext)
+            except OSError:
+                pass
+        try:
+            os.unlink(os.path.join(core.COQ, "C11", ".cases_%d.aux" % os.getpid()))
+        except OSError:
+            pass
+    verdicts = re.findall(r"=\s*(true|false)\s*:\s*bool", cout)
+    if not ok or len(verdicts) != len(todo):
+        dis.append("coqc on the generated cases failed (%d verdicts for %d cases): %s" % (len(verdicts), len(todo), cout[-400:]))
+    else:
+        for c, v in zip(todo, verdicts):
+            if v != "true":
+                dis.append("script %s: real client %s != model; script %s order %s"
+                           % (c["id"], json.dumps(res[c["id"]])[:300], json.dumps(c["script"])[:300], c["order"]))
+    return n, dis, {"scripts": n, "max_qccount_of_one_client": rounds, "scripts_with_a_repeated_continuation_value": stopped}
+
+
 # ----------------------------------------------------------------------------- check
 def shape_of(case):
     sw = c11_wiki.SynthWiki(case["wiki"], {})
@@ -321,6 +459,12 @@ def check_cases(run, cases, src, exe, stats, found):
         stats["requests"] += len(res.get("requests", []))
         stats["continuations"] += sum(1 for q in res.get("requests", []) if q[3])
         stats["max_inflight"] = max(stats["max_inflight"], res.get("max_inflight", 0))
+        tot, per_query = res.get("cont_rounds", [0, 0])
+        b = "0" if tot == 0 else "1-9" if tot < 10 else "10-39" if tot < 40 else "40-99" if tot < 100 else "100-199" if tot < 200 else "200-499" if tot < 500 else "500+"
+        stats["continuation_rounds_per_fetch"][b] = stats["continuation_rounds_per_fetch"].get(b, 0) + 1
+        stats["max_continuation_rounds_per_fetch"] = max(stats["max_continuation_rounds_per_fetch"], tot)
+        stats["max_continuation_rounds_of_one_query"] = max(stats["max_continuation_rounds_of_one_query"], per_query)
+        stats["bulk_cases"] += 1 if case["opts"].get("bulk") else 0
         nii = sum(1 for q in res.get("requests", []) if (q[2] or "").startswith("imageinfo"))
         stats["cases_with_2+_imageinfo_batches"] += 1 if nii >= 2 else 0
         lat = case["opts"].get("latency", "random")
@@ -440,7 +584,11 @@ def check(run):
                 "(chains into articles or redirects, dead ends, self loops, 2-cycles), contributors from a pool incl. bot names, anon "
                 "counts; metabooks of 1-10 items: titles / pinned revisions (current, old, redirect text, nonexistent revid), redirects, "
                 "missing titles, chapters, duplicates, in 35% of the cases one page listed 2..n+1 times with different revisions "
-                "(pinned+pinned, pinned+unpinned, all revisions + unpinned); the quantifier's exclusion is enforced (a title "
+                "(pinned+pinned, pinned+unpinned, all revisions + unpinned); plus a BULK family (28 cases quick / 640 thorough): "
+                "8..45 (thorough ..70) articles, log-uniform, sharing 2-14 images directly and through gallery templates, up to 20 "
+                "contributors per page from a pool of 47, most articles listed (some pinned / through redirects / missing), "
+                "rvlimit and api_result_limit in {1,2,3,5}: every query needs a handful of continuation rounds, one fetch 20..1000+ "
+                "on the same API client (measured: continuation_rounds_per_fetch); the quantifier's exclusion is enforced (a title "
                 "reached through a listed redirect is not listed pinned); api_request_limit, api_result_limit, rvlimit in 1..50 "
                 "(biased to 1,2,3), 25% noimages; response latencies per request/download: 75% VIRTUAL (k cooperative yields, a "
                 "function of the case's seed, so the interleaving replays exactly: k in 0 / 1-4 / 5-25 / 26-90 per request, or "
@@ -463,8 +611,21 @@ def check(run):
                        "used for its image list), print templates, licenses, multi-wiki collections"]
     t0 = time.time()
     src = core.snapshot()
-    run.check_proofs("C11")
+    info = {}
+
+    def gen():
+        info.update(generate(src))
+    run.check_proofs("C11", gen=gen)
     t_proofs = time.time() - t0
+    if info:
+        # the model of query continuation (with the translated stop condition) against the real client
+        try:
+            ncont, cdis, cstats = continue_tie(run, src)
+        except Exception as e:
+            ncont, cdis, cstats = 0, ["continuation tie could not run: %s: %s" % (type(e).__name__, str(e)[-300:])], {}
+        run.tie("real MwApi._do_request/_handle_query_continue/merge_data on scripted servers (several queries on one client, "
+                "slices, repeated continuation values) = run_queries gen_stop (srv_of script) of coq/C11/ModelContinue.v", ncont, cdis)
+        run.coverage["continuation_model"] = dict(cstats, translated=info)
     try:
         exe = build()
     except Exception as e:      # model does not build: the monitor still runs
@@ -479,11 +640,17 @@ def check(run):
             c["id"] = "corpus-" + fn
             cases.append(c)
     ncorpus = len(cases)
+    # the SIZE dimension (c11_oracle.gen_bulk_case): larger collections with small result limits, dozens to many
+    # hundreds of continuation rounds per fetch on one API client, each query short.  A fixed number per tier (they
+    # cost 10-50 times an ordinary case), spread over the run so that every chunk / shard gets some.
+    nbulk = 28 if run.tier == "quick" else 640
+    every = n // nbulk
     for i in range(n):
-        cases.append(c11_oracle.gen_case(run.rng, i, run.tier))
+        cases.append(c11_oracle.gen_case(run.rng, i, run.tier, bulk=(i % every == every // 2)))
     stats = {"features": {}, "requests": 0, "continuations": 0, "max_inflight": 0, "greenlet_skips": 0, "noimages": 0,
              "req_limit_1": 0, "cases_with_reordered_completions": 0, "hits": {}, "model_steps": 0,
-             "cases_with_2+_imageinfo_batches": 0, "latency_mode": {}}
+             "cases_with_2+_imageinfo_batches": 0, "latency_mode": {}, "continuation_rounds_per_fetch": {},
+             "max_continuation_rounds_per_fetch": 0, "max_continuation_rounds_of_one_query": 0, "bulk_cases": 0}
     dis = []
     chunk = 1000
     found = {}
